@@ -250,6 +250,25 @@ ADD2 = {
 for _id, _t in ADD2.items():
     P[_id]["text"] += " " + _t
 
+ADD3 = {
+ "C01": "A function that defers mu.Unlock() and also releases mu explicitly has taken it again before every return or explicit panic (a double unlock is a fatal runtime error no recover confines; rule mutex-unlock-balanced).",
+ "C03": "A pointer to a private by-value copy of shared state that is kept in a field of the per-connection object still leads to the shared memory the copy's reference fields point to (field transfer in no-shared-state-write).",
+ "C04": "What the dispatcher's peek connection reads off the socket it keeps in full for replay (shared with C08; a fixed-size replay store needs a proof that every copy into it takes its whole source; rule peek-replay).",
+ "C05": "The file channel hands the rotating file whole-line batches (shared with C07; rule whole-line-batches).",
+ "C06": "Event.Get, on which the filters decide, returns the stored value asserted to string or the empty string, never a textual rendering of another type (rule filter-field-string-or-empty).",
+ "C08": "The value the selector asserts to CanHandlerer is the service itself: the registry stores the registered constructor, the service table holds its result, and no type that wraps a Servicer has a CanHandle of its own (rule detector-presence-preserved).",
+ "C09": "The selector's own read of the client's first bytes goes through the idle-deadline wrapper or follows a deadline call (rule selector-read-bounded); a loop that takes items from a bounded queue the ssh library fills on the connection's reader goroutine does not wait for the peer inline (rule library-queue-drained).",
+ "C12": "Every LDAP reply is sent from an object made for that request, or one whose result code is stored on every path to the reply (rule ldap-reply-per-request).",
+ "C13": "readHandshake takes a message out of the reassembly buffer with Next(k) only after filling it to that same k, inline or through a helper whose bound is its argument (rule handshake-message-whole).",
+ "C14": "Every flush() of the segment handler (and the listener helpers it calls) sits under a test that the segment carries PSH or FIN (rule flush-on-push-or-fin).",
+ "C15": "The ssh recorder does not write into the relayed buffer, also not through re-slices handed to helpers (in-place filters, append onto b[:0], copy; clause of ssh-recorder-passthrough).",
+ "C17": "The bytes handed to the IPP decoder come from a read-to-the-end (ReadAll, io.ReadFull/ReadAtLeast, io.Copy/ReadFrom), directly or through a helper (rule request-body-read-whole).",
+ "C18": "Where the option list for server.New is built, an option that reads a Honeytrap field when applied is not put before the option that writes it (WithToken reads dataDir, WithDataDir sets it; rule option-order).",
+ "C20": "No knock record is queued only when one of the Canary's own actions (transmitting the reply) succeeded (rule knock-independent-of-reply).",
+}
+for _id, _t in ADD3.items():
+    P[_id]["text"] += " " + _t
+
 PENDING = {
 }
 
